@@ -292,4 +292,159 @@ example : (signRevise true .rhp2Write
     { cur := exCur, no := 6, vv := [90, 60], mv := [90, 35, 25], price := 10, burn := 5, sigOK := true }).isOk = true := by
   decide +kernel
 
+/-! ### sessions: the cached revision and the stored revision
+
+`Sess`, `sessStep`, `session2`, `execByContract` (Model/Revision.lean): a revising RPC is validated against the
+revision the session CACHES and committed to the STORE.  If every handler refreshes the cache after its commit
+(`codeFacts`) the two stay equal, so every accepted RPC is guarded against the stored revision; the witness
+shows what happens when one handler does not. -/
+
+theorem sessLock_inv (s : Sess) : (sessLock s).cached = (sessLock s).stored := rfl
+
+/-- **every handler keeps cached = stored**, provided it refreshes the cache after its commit -/
+theorem sessStep_inv {fx : Bool} {F : SessFacts} {site : SignSite} {s : Sess} {i : SiteIn}
+    (hF : ∀ x, F.refresh x = true) (h : s.cached = s.stored) :
+    (sessStep fx F site s i).1.cached = (sessStep fx F site s i).1.stored := by
+  unfold sessStep
+  split <;> simp [hF, h]
+
+theorem signRevise_revno {fx : Bool} {s : SignSite} {i : SiteIn} {r : Rev} {cr : Nat}
+    (h : signRevise fx s i = .ok (r, cr)) (hwf : fx = false → total i.cur.missed = total i.cur.valid) :
+    i.cur.revNo < r.revNo := by
+  have hs := (signRevise_accept_safe h hwf).1
+  have key : ("revno_increases", decide (r.revNo > i.cur.revNo)) ∈ siteClauses s i r cr → i.cur.revNo < r.revNo := by
+    intro hm; simpa using hs _ hm
+  cases s <;> first
+    | (simp only [signRevise] at h; cases h)
+    | (apply key; simp [siteClauses, revisionClauses])
+
+/-- **therefore it guards against the STORED revision**: with cached = stored, an accepted RPC satisfies every
+clause of its site relative to what the store held, the revision number strictly increases relative to the
+store, and the store then holds exactly the signed revision. -/
+theorem sessStep_accept_safe {fx : Bool} {F : SessFacts} {site : SignSite} {s s' : Sess} {i : SiteIn} {r : Rev} {cr : Nat}
+    (hinv : s.cached = s.stored) (h : sessStep fx F site s i = (s', .ok (r, cr)))
+    (hwf : fx = false → total s.stored.missed = total s.stored.valid) :
+    (∀ c ∈ siteClauses site { i with cur := s.stored } r cr, c.2 = true) ∧ s.stored.revNo < r.revNo ∧ s'.stored = r := by
+  unfold sessStep at h
+  rw [hinv] at h
+  split at h
+  · rename_i r' cr' heq
+    simp only [Prod.mk.injEq, Res.ok.injEq] at h
+    obtain ⟨rfl, rfl, rfl⟩ := h
+    exact ⟨(signRevise_accept_safe heq hwf).1, signRevise_revno heq hwf, rfl⟩
+  · simp at h
+  · simp at h
+
+/-- **a whole RHP2 session of two RPCs** (repaired validators, handlers as they are): both accepted RPCs are
+safe relative to the store, and the stored revision numbers strictly increase: c < r1 < r2. -/
+theorem session2_safe {c : Rev} {k1 k2 : SignSite} {i1 i2 : SiteIn} {relock : Bool} {r1 r2 : Rev} {c1 c2 : Nat}
+    (h : session2 true codeFacts c k1 k2 i1 i2 relock = (.ok (r1, c1), .ok (r2, c2))) :
+    (∀ x ∈ siteClauses k1 { i1 with cur := c } r1 c1, x.2 = true) ∧
+    (∀ x ∈ siteClauses k2 { i2 with cur := r1 } r2 c2, x.2 = true) ∧
+    c.revNo < r1.revNo ∧ r1.revNo < r2.revNo := by
+  unfold session2 at h
+  generalize hs1 : sessStep true codeFacts k1 (sessLock { cached := c, stored := c }) i1 = st1 at h
+  obtain ⟨s1, res1⟩ := st1
+  simp only [hs1] at h
+  cases res1 with
+  | reject t => simp at h
+  | panic p => simp at h
+  | ok v =>
+    obtain ⟨r1', c1'⟩ := v
+    simp only [Prod.mk.injEq, Res.ok.injEq] at h
+    obtain ⟨⟨rfl, rfl⟩, h2⟩ := h
+    have a1 := sessStep_accept_safe (s := sessLock { cached := c, stored := c }) rfl hs1 (by simp)
+    have inv1 : s1.cached = s1.stored := by
+      have := sessStep_inv (fx := true) (F := codeFacts) (site := k1) (s := sessLock { cached := c, stored := c }) (i := i1)
+        (fun _ => rfl) rfl
+      rw [hs1] at this; exact this
+    have hst : s1.stored = r1' := a1.2.2
+    -- the state the second RPC starts from has cached = stored = r1 with or without a re-lock
+    have inv2 : (if relock then sessLock s1 else s1).cached = (if relock then sessLock s1 else s1).stored ∧
+        (if relock then sessLock s1 else s1).stored = r1' := by
+      cases relock <;> simp [sessLock, inv1, hst]
+    generalize hs2 : sessStep true codeFacts k2 (if relock then sessLock s1 else s1) i2 = st2 at h2
+    obtain ⟨s2, res2⟩ := st2
+    simp only [hs2] at h2
+    subst h2
+    have a2 := sessStep_accept_safe inv2.1 hs2 (by simp)
+    rw [inv2.2] at a2
+    exact ⟨a1.1, a2.1, a1.2.1, a2.2.1⟩
+
+/-- **RHP3 execute paid by contract**: the executor's revision comes from the Lock AFTER the payment, so
+the finalisation is guarded against the revision the payment produced. -/
+theorem execByContract_safe {c : Rev} {i1 i2 : SiteIn} {need : Nat} {r1 r2 : Rev} {c1 c2 : Nat}
+    (h : execByContract true true c i1 i2 need = (.ok (r1, c1), .ok (r2, c2))) :
+    (∀ x ∈ siteClauses .rhp3Pay { i1 with cur := c } r1 c1, x.2 = true) ∧
+    (∀ x ∈ siteClauses .rhp3Finalize { i2 with cur := r1 } r2 c2, x.2 = true) ∧
+    c.revNo < r1.revNo ∧ r1.revNo < r2.revNo ∧ need ≤ c1 := by
+  unfold execByContract at h
+  generalize hs1 : sessStep true codeFacts .rhp3Pay (sessLock { cached := c, stored := c }) i1 = st1 at h
+  obtain ⟨s1, res1⟩ := st1
+  simp only [hs1] at h
+  cases res1 with
+  | reject t => simp at h
+  | panic p => simp at h
+  | ok v =>
+    obtain ⟨r1', c1'⟩ := v
+    simp only at h
+    have a1 := sessStep_accept_safe (s := sessLock { cached := c, stored := c }) rfl hs1 (by simp)
+    have hst : s1.stored = r1' := a1.2.2
+    split at h
+    · simp at h
+    · rename_i hneed
+      simp only [Prod.mk.injEq, Res.ok.injEq, ite_true] at h
+      obtain ⟨⟨rfl, rfl⟩, h2⟩ := h
+      generalize hs2 : sessStep true codeFacts .rhp3Finalize { cached := s1.stored, stored := s1.stored } i2 = st2 at h2
+      obtain ⟨s2, res2⟩ := st2
+      simp only [hs2] at h2
+      subst h2
+      have a2 := sessStep_accept_safe (s := { cached := s1.stored, stored := s1.stored }) rfl hs2 (by simp)
+      simp only [hst] at a2
+      exact ⟨a1.1, a2.1, a1.2.1, a2.2.1, by omega⟩
+
+/-! the stale-cache shape (seed C07-d): `rpcSectorRoots` without `s.contract = signedRevision` -/
+
+def staleFacts : SessFacts := { refresh := fun s => s != .rhp2SectorRoots }
+
+/-- the SectorRoots request: pay 10 on `exCur` (revision 5 -> 6) -/
+def exRootsIn : SiteIn :=
+  { cur := exCur, no := 6, vv := [90, 60], mv := [90, 40, 20], price := 10, burn := 0, sigOK := true }
+def exAfterRoots : Rev := { exCur with revNo := 6, valid := [⟨1, 90⟩, ⟨2, 60⟩], missed := [⟨1, 90⟩, ⟨2, 40⟩, ⟨0, 20⟩] }
+
+/-- a byte-for-byte replay of the first request in the same session: with the stale cache it is accepted
+and persisted although the revision number does not increase relative to the store (6 -> 6); the code as
+it is rejects it (`Revise`: revision number must be greater) -/
+theorem stale_cache_witness :
+    session2 true staleFacts exCur .rhp2SectorRoots .rhp2SectorRoots exRootsIn exRootsIn false
+      = (.ok (exAfterRoots, 0), .ok (exAfterRoots, 0)) ∧
+    ¬ (exAfterRoots.revNo < exAfterRoots.revNo) ∧
+    (session2 true codeFacts exCur .rhp2SectorRoots .rhp2SectorRoots exRootsIn exRootsIn false).2 = .reject .revNo := by
+  decide +kernel
+
+/-- a second request built on the pre-first payouts with a higher number: relative to the store the host's
+valid payout does not gain the price of the second RPC (the renter pays once for two RPCs) -/
+theorem stale_cache_free_rpc_witness :
+    (session2 true staleFacts exCur .rhp2SectorRoots .rhp2Read exRootsIn { exRootsIn with no := 7 } false).2
+      = .ok ({ exAfterRoots with revNo := 7 }, 0) ∧
+    ("host_valid_gains_price", false) ∈
+      siteClauses .rhp2Read { exRootsIn with no := 7, cur := exAfterRoots } { exAfterRoots with revNo := 7 } 0 ∧
+    (session2 true codeFacts exCur .rhp2SectorRoots .rhp2Read exRootsIn { exRootsIn with no := 7 } false).2
+      = .reject .insufficientTransfer := by
+  decide +kernel
+
+/-- the RHP3 analogue: an executor that kept the pre-payment revision would finalise on it -/
+theorem stale_executor_witness :
+    (execByContract true false exCur { exRootsIn with mv := [90, 50, 10] } { exRootsIn with vv := [100, 50], mv := [100, 40, 10] } 0).2
+      = .ok ({ exCur with revNo := 6 }, 0) ∧
+    (execByContract true true exCur { exRootsIn with mv := [90, 50, 10] } { exRootsIn with vv := [100, 50], mv := [100, 40, 10] } 0).2
+      = .reject .revNo := by
+  decide +kernel
+
+/-- an honest two-RPC session -/
+example : session2 true codeFacts exCur .rhp2SectorRoots .rhp2Read exRootsIn
+    { exRootsIn with no := 7, vv := [80, 70], mv := [80, 40, 30] } false
+    = (.ok (exAfterRoots, 0), .ok ({ exCur with revNo := 7, valid := [⟨1, 80⟩, ⟨2, 70⟩], missed := [⟨1, 80⟩, ⟨2, 40⟩, ⟨0, 30⟩] }, 0)) := by
+  decide +kernel
+
 end Hostd.Revision
